@@ -64,10 +64,17 @@ RemoveOp(entries, M) == [i \in 1..Len(entries) |-> [entries[i] EXCEPT !.dests = 
 RemoveMoveOp(entries, c) ==
     [i \in 1..Len(entries) |-> IF entries[i].src = c \div 320 THEN [entries[i] EXCEPT !.dests = @ \ {(c % 320) \div 5}] ELSE entries[i]]
 
-\* abstraction to layer R: the set of moves the entry list still represents
+\* abstraction to layer R: the set of moves the entry list still represents.  The promotion pieces
+\* already yielded (pcur of them) belong to the first promotion entry, from the cursor on, that has
+\* a destination under the mask, and to its lowest such destination: that is where next() will
+\* take the next piece from and where len() subtracts them
+RECURSIVE FirstPromo(_,_,_)
+FirstPromo(entries, i, mask) == IF i > Len(entries) THEN 0
+                                ELSE IF entries[i].promo /\ Masked(entries[i], mask) # {} THEN i
+                                ELSE FirstPromo(entries, i + 1, mask)
 InProgress(entries, idx, mask) ==
-    LET i == Skip(entries, idx, mask) IN
-    IF i > Len(entries) \/ ~entries[i].promo THEN <<-1, -1>> ELSE <<entries[i].src, MinOf(Masked(entries[i], mask))>>
+    LET i == FirstPromo(entries, idx, mask) IN
+    IF i = 0 THEN <<-1, -1>> ELSE <<entries[i].src, MinOf(Masked(entries[i], mask))>>
 Abs(entries, idx, mask, pcur) ==
     LET ip == InProgress(entries, idx, mask)
         gone == IF pcur = 0 \/ ip[1] = -1 THEN {} ELSE { MoveCode(ip[1], ip[2], PieceOrder[k]) : k \in 1..pcur }
